@@ -37,6 +37,10 @@ class World:
         self.series = read_series_table(self.fe)
         self.series_by_key = {e.key: e for e in self.series}
         self.stable = SeriesTable(self.series)
+        if self.stable.errors:
+            # a table formula that cannot be read leaves its series atoms without a closed form; comparisons that involve them
+            # would treat them as free indeterminates.  No verdict then, for any property.
+            raise AnchorMissing("series table of cyecca/symbolic.py: formulas not readable as closed forms in x: %s" % self.stable.errors)
         self.it = Interp(self.fe, [e.key for e in self.series], SUMMARIES, self.stable.canon)
         self.t_front = time.time() - t0
         self._lie = None
